@@ -29,4 +29,7 @@ CHECKS['C13'] = {'technique': MS + '; assume/guarantee for calculate_max_leverag
 CHECKS['C14'] = {'technique': MS + '; handler-mode trace queries; try_accounts acceptance conditions', 'engine': 'mirsym',
     'text': 'Bounded symbolic verification: validate_bank_state equals the 4x4 reference table; is_protocol_paused equals the reference (expiry by clock alone, fail-closed on bad clock); every financial handler calls validate_bank_state with the required kind before any balance mutation and propagates its error; every fund-moving instruction struct carries the pause constraint and is accepted again after expiry.',
     'note': _H}
+CHECKS['C12'] = {'technique': MS + '; handler-mode write-set queries', 'engine': 'mirsym',
+    'text': 'Bounded symbolic verification: each delegated-admin handler is executed symbolically with every bank-mutating callee inlined; for every loaded account object each written leaf must be inside the role mask (all Option combinations and all 2^64 flag words, state-merged); frozen banks: only the limits; FREEZE_SETTINGS never cleared; override_emissions_flag/update_flag as whole functions. Counterexamples replay natively (through marginfi::entry for the emissions instruction).',
+    'note': _H + ' Deleverage daily limit (C12.d) and deleverage bracket (C12.e) are covered under C10-style obligations only partly (see DESIGN).'}
 NOT_APPLICABLE = {}
